@@ -132,6 +132,23 @@ func run(c *core.Child) {
 			b.WriteString(" } }")
 			reqs = append(reqs, req{text: b.String(), kind: "abstract-probe"})
 		}
+		// same shape, different literals: with Normalize on these share one
+		// cache entry and differ only in the per-call synthetic variables
+		for _, f := range m.Type(m.Query).Fields {
+			if !m.IsLeaf(f.Type.Base()) || len(f.Args) != 1 || f.Args[0].Type.Kind != "named" {
+				continue
+			}
+			lits := map[string][]string{"String": {`"v1"`, `"v2"`, `"v3"`}, "Int": {"1", "2", "3"}, "ID": {`"i1"`, "2", `"i3"`}, "Boolean": {"true", "false", "true"}}[f.Args[0].Type.Name]
+			for _, l := range lits {
+				reqs = append(reqs, req{text: fmt.Sprintf("{ %s(%s: %s) }", f.Name, f.Args[0].Name, l), kind: "literal-variant"})
+			}
+			if lits != nil {
+				break
+			}
+		}
+		reqs = append(reqs, req{text: `{ a: __typename @include(if: true) b: __typename @skip(if: false) }`, kind: "literal-variant"},
+			req{text: `{ a: __typename @include(if: false) b: __typename @skip(if: false) }`, kind: "literal-variant"},
+			req{text: `{ a: __typename @include(if: true) b: __typename @skip(if: true) }`, kind: "literal-variant"})
 		reqs = append(reqs, req{text: testutil.IntrospectionQuery, kind: "introspection"})
 		reqs = append(reqs, req{text: `{ __schema { types { name possibleTypes { name } enumValues { name } } } }`, kind: "introspection"})
 		reqs = append(reqs, req{text: `{ nope }`, kind: "invalid"})
@@ -151,7 +168,32 @@ func run(c *core.Child) {
 			continue
 		}
 		env.Quiet = true
-		cache := graphql.NewPlanCache(graphql.PlanCacheOptions{MaxEntries: 2, Normalize: ri%4 == 1})
+		// every third round: a second schema of the same shape (another pointer,
+		// another value universe) is served through the SAME cache; a plan bound
+		// to one schema must never be handed out for the other
+		twoSchemas := ri%3 == 2
+		envs := []*build.Env{env}
+		wants := [][]string{want}
+		if twoSchemas {
+			env2, err := build.Build(m, vseed+1)
+			solo2, err2 := build.Build(m, vseed+1)
+			if err != nil || err2 != nil {
+				continue
+			}
+			env2.Quiet, solo2.Quiet = true, true
+			want2 := make([]string, len(reqs))
+			for i, rq := range reqs {
+				want2[i] = canon(graphql.Do(graphql.Params{Schema: solo2.Schema, RequestString: rq.text, OperationName: rq.op, VariableValues: rq.vars}))
+			}
+			envs = append(envs, env2)
+			wants = append(wants, want2)
+			c.Feature("round-with-two-schemas-one-cache")
+		}
+		maxEntries := 2
+		if ri%5 >= 3 || twoSchemas {
+			maxEntries = 64
+		}
+		cache := graphql.NewPlanCache(graphql.PlanCacheOptions{MaxEntries: maxEntries, Normalize: ri%4 == 1})
 		sharedPlans := make([]*graphql.Plan, len(reqs))
 		if ri%2 == 0 {
 			for i, rq := range reqs {
@@ -186,6 +228,7 @@ func run(c *core.Child) {
 			g, step, ri int
 			kind        string
 			got         string
+			which       int
 		}
 		var mu sync.Mutex // taken only AFTER a request finished, to store its outcome
 		var outs []outcome
@@ -205,6 +248,17 @@ func run(c *core.Child) {
 					rq := reqs[i]
 					var got string
 					kind := ""
+					which := 0
+					x := gr.Intn(100)
+					if twoSchemas {
+						// few keys, mostly cache traffic, both schemas
+						i = gr.Intn(3)
+						rq = reqs[i]
+						which = gr.Intn(2)
+						if x >= 20 && x < 90 {
+							x = 50
+						}
+					}
 					func() {
 						defer func() {
 							if r := recover(); r != nil {
@@ -212,7 +266,8 @@ func run(c *core.Child) {
 								got = fmt.Sprintf("PANIC: %v", r)
 							}
 						}()
-						switch x := gr.Intn(100); {
+						env := envs[which]
+						switch {
 						case x < 35:
 							kind = "Do"
 							got = canon(graphql.Do(graphql.Params{Schema: env.Schema, RequestString: rq.text, OperationName: rq.op, VariableValues: rq.vars}))
@@ -239,6 +294,7 @@ func run(c *core.Child) {
 						case x < 95:
 							if p := sharedPlans[i]; p != nil {
 								kind = "SharedPlan"
+								which, env = 0, envs[0] // the prepared plans belong to the first schema
 								got = canon(graphql.ExecutePlan(p, graphql.ExecuteParams{Schema: env.Schema, Args: rq.vars}))
 							} else {
 								kind = "Do"
@@ -252,7 +308,7 @@ func run(c *core.Child) {
 					s := seq.Add(1)
 					orderHash.Add(core.HashString(fmt.Sprintf("%d:%d:%s", s, g, kind)))
 					mu.Lock()
-					outs = append(outs, outcome{g, step, i, kind, got})
+					outs = append(outs, outcome{g, step, i, kind, got, which})
 					mu.Unlock()
 				}
 			}(g)
@@ -314,9 +370,9 @@ func run(c *core.Child) {
 			sawEnum = sawEnum || e
 			sawAbs = sawAbs || a
 			keys = append(keys, fmt.Sprintf("%d:%d:%s", o.g, o.ri, o.kind))
-			if o.got != want[o.ri] {
+			if o.got != wants[o.which][o.ri] {
 				c.Violation("response-differs-from-solo:"+o.kind, fmt.Sprintf("goroutine %d step %d (%s): response differs from the same request run alone", o.g, o.step, o.kind),
-					map[string]interface{}{"schema": m.SDL(), "request": rq.text, "variables": rq.vars, "concurrent": trunc(o.got), "solo": trunc(want[o.ri])})
+					map[string]interface{}{"schema": m.SDL(), "request": rq.text, "variables": rq.vars, "schema_index": o.which, "concurrent": trunc(o.got), "solo": trunc(wants[o.which][o.ri])})
 				break
 			}
 		}
